@@ -1,5 +1,5 @@
 #!/usr/bin/env python3
-"""Tie (a) for FUNCTIONS, stage 2: bitboards, Zobrist hash, attack look-ups.
+"""Tie (a) for FUNCTIONS, stage 2: bitboards, Zobrist hash, attack look-ups, Board::new, State::by_performing_move.
 
     python3 tools/rs2lean2.py [--repo DIR] [--out FILE] [--check]
 
@@ -41,6 +41,12 @@ TRUSTED PART 1 (additions to the table of rs2lean.py) -- semantics given to the 
  x.map(|p| e) with e panicking        `match x with | none => pure none | some p => do ..`
  enum as usize                        `UInt8.toUInt64 (E.into_u8 v)` (stage-1 primitive: the discriminant)
  lazy_static! { static ref N: T = e; }  the constant `e` (evaluated once; no interior mutability in T)
+ `?` / `return` / let-else on some path of a statement `if`/`match` that other paths leave normally
+                                      the statement yields `Early.ret r | Early.cont (assigned variables)`, followed by one `match`
+ let x = { stmts; e };                the statements inlined, then `let x := e` (a name declared inside must not be used after it)
+ Result<T, E>, x.ok_or(E::V), Err(E::V)   `Option T` (payload dropped, as in stage 1); `E::V` must be a variant of `ERROR_ENUMS`
+ usize::saturating_add                `UInt64.saturating_add`
+ let x <- if/match ..                 emitted PARENTHESISED (a term): Lean builds `bind (ite ..) k`, no `do` join point
 
 TRUSTED PART 2 (additions) -- primitive mappings
 ------------------------------------------------------------------------------------------------------
